@@ -172,12 +172,23 @@ def run(rep):
                 if g2 is g:
                     continue
                 names = [method(cname(x)) for x in g2['calls']]
-                if 'next' in names:
+                is_binding_guard = any('.binding' in p[1] and p[1].count('.') == 1 for p in g2['places'] if p) or any(p and p[1].endswith('.binding') for p in g2['places'])
+                if 'next' in names and not is_binding_guard:
                     continue
                 from mirutil import correlated_origin
                 if correlated_origin(B, g2['block']) is not None and set(names) <= {'branch'}:
                     continue   # the `?` on a helper's Result that merely propagates the outcome of the scan
                 if any('.binding' in p[1] and p[1].count('.') == 1 for p in g2['places'] if p) or any(p and p[1].endswith('.binding') for p in g2['places']):
+                    # "has a binding": a variable without one is skipped - the loop must go on with the next variable (`continue`, not `break`)
+                    loop_sw = [g3['block'] for g3 in gs if g3 is not g2 and 'next' in [method(cname(x)) for x in g3['calls']] and
+                               not any(p_ and '.binding' in p_[1] for p_ in g3['places'])]
+                    t2 = B.blocks[g2['block']]['term']
+                    skip_edges = [tgt for v, tgt in [(v, tgt) for v, tgt in t2['targets']] + [(None, t2['otherwise'])]
+                                  if v not in g2['values'] and B.blocks[tgt]['term']['k'] != 'unreachable']
+                    stops = [tgt for tgt in skip_edges if loop_sw and not any(l_ in B.reachable_from([tgt]) for l_ in loop_sw)]
+                    rep.check(not stops, 'C11.R2.all-globals', f'skip-continues:{name}', B.where(g2['block']),
+                              'a variable without a resource binding ends the collection loop (`break`) instead of being skipped: every resource declared after it is silently left out',
+                              ok_detail='variables without a binding are skipped, the loop goes on')
                     continue
                 # drop flags
                 if not g2['calls'] and all(p and p[1] == '' for p in g2['places']) and is_drop_flag(B, g2):
